@@ -65,7 +65,7 @@ func cmdSelftest(args []string) {
 		caught := false
 		var detail []string
 		for _, p := range props {
-			cmd := exec.Command(self, "check", "-repo", scratch, "-root", *root, "-prop", p, "-tier", "quick", "-out", filepath.Join(scratch, ".verif-out"))
+			cmd := exec.Command(self, "check", "-repo", scratch, "-root", *root, "-prop", p, "-tier", mutantTier(f), "-out", filepath.Join(scratch, ".verif-out"))
 			var out bytes.Buffer
 			cmd.Stdout = &out
 			cmd.Stderr = &out
@@ -120,6 +120,23 @@ func lastLines(s string, n int) string {
 		ls = ls[len(ls)-n:]
 	}
 	return strings.Join(ls, " | ")
+}
+
+// mutantTier: a seeded change whose meta.json says "tier": "thorough" is expected to be caught by
+// the thorough tier only (a bounded stand-in decides it); everything else must turn the quick tier red.
+func mutantTier(f string) string {
+	if filepath.Base(f) == "patch.diff" {
+		if data, err := os.ReadFile(filepath.Join(filepath.Dir(f), "meta.json")); err == nil {
+			var m struct {
+				Tier string `json:"tier"`
+			}
+			json.Unmarshal(data, &m)
+			if m.Tier == "thorough" {
+				return "thorough"
+			}
+		}
+	}
+	return "quick"
 }
 
 func mutantProps(f string) []string {
